@@ -7,7 +7,7 @@ CONSTANTS
   MaxHostSets = 0
   EmitBeh = TRUE
   Bug <- NoBugs
-INVARIANTS FlowRefinesSem NextArgIgnored StackDiscipline EndAbsorbing EndReportedOnlyWhenEnded
+INVARIANTS NextStatementFrozen FlowRefinesSem NextArgIgnored StackDiscipline EndAbsorbing EndReportedOnlyWhenEnded
            PendingNextIsNoOp DoneNeverWaits WaitingOnlyWhilePending CountIsJumpsOut VisitedIffPositive
            UnknownIsZero Emit
 PROPERTIES TypeStable FailedStepFrozen WritesExplainStore VisitsMonotone OnlyJumpsChangeVisits
